@@ -88,6 +88,16 @@ RESERVED_ERR = {"ValueError": "E_Value", "AssertionError": "E_Assert", "IndexErr
                 "TypeError": "E_Type", "RuntimeError": "E_Runtime", "AttributeError": "E_Attribute"}
 
 
+def tuple_items(typ):
+    """ the component types of a flat product type "(A * B * ...)", else None """
+    if not (typ.startswith("(") and typ.endswith(")")) or " * " not in typ:
+        return None
+    inner = typ[1:-1]
+    if "(" in inner or ")" in inner:
+        return None
+    return inner.split(" * ")
+
+
 class Translator:
     def __init__(self, spec, types):
         self.spec = spec
@@ -102,6 +112,7 @@ class Translator:
         self.used_alias = set()
         self.used_assume = set()
         self.used_drop = set()
+        self.used_nested = set()
 
     # ---- names
     @staticmethod
@@ -234,6 +245,32 @@ class Translator:
             return f"negb ({par(a)} =? {par(b)})"
         raise KernelError(f"comparison {type(op).__name__}")
 
+    def cmp_tuple(self, op, a, b, n):
+        """ Python's lexicographic comparison of two tuples of n integers """
+        names_a = [f"ta{i}__" for i in range(n)]
+        names_b = [f"tb{i}__" for i in range(n)]
+
+        def lex(i, strict_op, last_op):
+            if i == n - 1:
+                return self.cmp_z(last_op, names_a[i], names_b[i])
+            return (f"({self.cmp_z(strict_op, names_a[i], names_b[i])}) || "
+                    f"(({names_a[i]} =? {names_b[i]}) && ({lex(i + 1, strict_op, last_op)}))")
+        if isinstance(op, (ast.Eq, ast.NotEq)):
+            body = " && ".join(f"({x} =? {y})" for x, y in zip(names_a, names_b))
+            if isinstance(op, ast.NotEq):
+                body = f"negb ({body})"
+        elif isinstance(op, ast.Lt):
+            body = lex(0, ast.Lt(), ast.Lt())
+        elif isinstance(op, ast.LtE):
+            body = lex(0, ast.Lt(), ast.LtE())
+        elif isinstance(op, ast.Gt):
+            body = lex(0, ast.Gt(), ast.Gt())
+        elif isinstance(op, ast.GtE):
+            body = lex(0, ast.Gt(), ast.GtE())
+        else:
+            raise KernelError(f"comparison {type(op).__name__} of tuples")
+        return f"let '({', '.join(names_a)}) := {a} in let '({', '.join(names_b)}) := {b} in {body}"
+
     def compare(self, node, env):
         operands = [node.left] + list(node.comparators)
         parts = []
@@ -256,6 +293,8 @@ class Translator:
                 parts.append(self.cmp_z(op, mul(fa.num, fb.den), mul(fb.num, fa.den)))
             elif a.typ == "Z" and b.typ == "Z":
                 parts.append(self.cmp_z(op, a.text, b.text))
+            elif a.typ == b.typ and tuple_items(a.typ) and all(t == "Z" for t in tuple_items(a.typ)):
+                parts.append(self.cmp_tuple(op, a.text, b.text, len(tuple_items(a.typ))))
             elif a.typ == b.typ and isinstance(op, (ast.Eq, ast.NotEq)):
                 eqb = "Bool.eqb" if a.typ == "bool" else self.types.get(a.typ, {}).get("eqb")
                 if not eqb:
@@ -494,6 +533,12 @@ class Translator:
             return self.block(rest, env, tail)
         if isinstance(stmt, ast.Pass):
             return self.block(rest, env, tail)
+        if isinstance(stmt, ast.FunctionDef):
+            # a nested function is translated as a kernel of its own; here its calls must be mapped to that kernel
+            if stmt.name not in self.calls:
+                raise KernelError(f"nested function {stmt.name} is not mapped to a kernel")
+            self.used_nested.add(stmt.name)
+            return self.block(rest, env, tail)
         if isinstance(stmt, ast.Return):
             if rest:
                 raise KernelError("statements after return")
@@ -535,6 +580,20 @@ class Translator:
                     t, env2 = self.bind(e.id, tmp_env[f"tmp{i}__"], env2)
                     text += t
                 return text + self.block(rest, env2, tail)
+            if isinstance(tgt, ast.Tuple) and all(isinstance(e, ast.Name) for e in tgt.elts):
+                value = self.expr(stmt.value, env)          # e.g. `_, head = split(...)`: a call that returns a pair
+                items = None if isinstance(value, F) else tuple_items(value.typ)
+                if not items or len(items) != len(tgt.elts):
+                    raise KernelError(f"unpacking of {getattr(value, 'typ', 'Q')} into {len(tgt.elts)} names")
+                env2 = dict(env)
+                pats = []
+                for e, typ in zip(tgt.elts, items):
+                    if e.id == "_":
+                        pats.append("_")
+                    else:
+                        env2[e.id] = E(self.var(e.id), typ)
+                        pats.append(self.var(e.id))
+                return f"let '({', '.join(pats)}) := {value.text} in\n" + self.block(rest, env2, tail)
             raise KernelError(f"assignment target {ast.unparse(tgt)}")
         if isinstance(stmt, ast.AugAssign):
             if not isinstance(stmt.target, ast.Name):
@@ -557,8 +616,18 @@ class Translator:
             if t_else:
                 return f"if {test} then\n{self.block(stmt.body + rest, env, tail)}\nelse\n{self.block(stmt.orelse, env, tail)}"
             names = self.assigned(stmt.body + stmt.orelse)
+            # a name that only one arm assigns and that has no value before the `if` is local to that arm (using it
+            # afterwards is a free variable and stops the translation there)
+            both = set(self.assigned(stmt.body)) & set(self.assigned(stmt.orelse))
+            names = [n for n in names if n in env or n in both]
             if not names:
-                raise KernelError("if without effect")
+                has_return = any(isinstance(sub, (ast.Return, ast.Raise))
+                                 for sub in ast.walk(ast.Module(body=stmt.body + stmt.orelse, type_ignores=[])))
+                if not has_return:
+                    raise KernelError("if without effect")
+                # `if a: if b: return x` and the like: both arms continue with the rest of the block
+                return (f"if {test} then\n{self.block(stmt.body + rest, env, tail)}\nelse\n"
+                        f"{self.block(stmt.orelse + rest, env, tail)}")
             shapes = {}
 
             def pack_tail(names=names, shapes=shapes):
